@@ -526,7 +526,13 @@ pub fn gen_input(g: &mut Sm, i: usize) -> Vec<u8> {
   match i % 7 {
     0 => vec![],
     1 => {
-      let n = g.range(1000, 1100) as usize;
+      // long inputs: around 1 KiB, around the 4 KiB and 64 KiB marks, beyond
+      let n = match (i / 7) % 4 {
+        0 => g.range(1000, 1100) as usize,
+        1 => *g.pick(&[4063usize, 4064, 4095, 4096, 4097, 5000]),
+        2 => *g.pick(&[65535usize, 65536, 65537]),
+        _ => g.range(8000, 20000) as usize,
+      };
       g.blob(n)
     }
     2 => vec![g.below(256) as u8],
